@@ -4,6 +4,8 @@ import (
 	"context"
 	"encoding/json"
 	"fmt"
+	"github.com/indexsupply/shovel/shovel/web"
+	"net/http/httptest"
 	"sort"
 	"strings"
 	"sync"
@@ -311,9 +313,26 @@ func managerScenarioOpts(ctx context.Context, rr *core.Rand, s int, badReload bo
 		conn, _ := pool.Acquire(ctx)
 		config.Migrate(ctx, conn, root)
 		conn.Release()
-		pg.InsertRow("shovel.integrations", map[string]fakepg.Value{"name": name, "conf": fakepg.JSON(g.json())})
+		viaDashboard := !badReload && rr.Chance(1, 2)
+		if !viaDashboard {
+			pg.InsertRow("shovel.integrations", map[string]fakepg.Value{"name": name, "conf": fakepg.JSON(g.json())})
+		}
 		if !(badReload && k == 0) {
 			expect["s1/"+name] = true
+		}
+		if viaDashboard {
+			// the way a user does it: POST /save-integration on the real dashboard handler, which stores the
+			// integration and restarts the manager itself; when it answers "ok" the new set is running
+			tags = append(tags, "stored-through-dashboard")
+			wh := web.New(mgr, &conf, pool)
+			req := httptest.NewRequest("POST", "/save-integration", strings.NewReader(g.json()))
+			rec := httptest.NewRecorder()
+			wh.SaveIntegration(rec, req)
+			if rec.Code != 200 {
+				return fmt.Sprintf("the dashboard refused to store integration %s: %d %s", name, rec.Code, trunc2(rec.Body.String())), tags
+			}
+			rets = append(rets, ret{time.Now(), nil})
+			continue
 		}
 		if badReload && k == 0 {
 			err := mgr.Restart()
